@@ -46,7 +46,9 @@ def gen_abstract(rng):
         a[m] = NAN
         return a
     d = {"times": times, "leads": leads, "locs": locs, "ids_from_zero": ids_from_zero, "thr": thr, "qua": qua, "nmem": nmem,
-         "arrays": {f: cube() for f in fields + other}, "other": other}
+         "arrays": {f: cube() for f in fields + other}, "other": other,
+         # discrete probability masses of the variable (0 for precipitation, 100 for relative humidity); 0 is a value, not "absent"
+         "x0": rng.choice([None, None, 0.0, 0.0, 1.0]), "x1": rng.choice([None, None, 100.0, 0.0])}
     if thr:
         d["cdf"] = cube(len(thr))
     if qua:
@@ -61,6 +63,9 @@ def write_text(path, d):
     hdr = ["unixtime", "leadtime", "location", "lat", "lon", "altitude"] + cols + ["p%g" % t for t in d["thr"]] + ["q%g" % q for q in d["qua"]] + \
           ["e%d" % m for m in range(d["nmem"])]
     with open(path, "w") as f:
+        for k_ in ("x0", "x1"):
+            if d.get(k_) is not None:
+                f.write("# %s: %g\n" % (k_, d[k_]))
         f.write(" ".join(hdr) + "\n")
         for a, t in enumerate(d["times"]):
             for b, l in enumerate(d["leads"]):
@@ -121,6 +126,9 @@ def write_nc(path, d, rng, opts):
         put("ensemble", d["ens"], ("time", "leadtime", "location", "ensemble_member"))
     nc.standard_name = "Temperature"
     nc.units = "degC"
+    for k_ in ("x0", "x1"):
+        if d.get(k_) is not None:
+            setattr(nc, k_, float(d[k_]))
     nc.close()
 
 
@@ -230,6 +238,12 @@ def _explore(out, tier, seed, facts, replay):
                     bad.append(f)
             if a["thr"] != b["thr"] or a["qua"] != b["qua"]:
                 bad.append("thresholds/quantiles")
+            for k_ in ("x0", "x1"):
+                va, vb = getattr(it.variable, k_), getattr(inn.variable, k_)
+                want_ = d.get(k_)
+                if not ((va is None and vb is None and want_ is None) or (va is not None and vb is not None and want_ is not None
+                                                                         and float(va) == float(vb) == float(want_))):
+                    bad.append("variable attribute %s (text %r, NetCDF %r, written %r)" % (k_, va, vb, want_))
             for o in d["other"]:
                 oa = np.asarray(it.other_score(o))[:, :, sorted(range(len(it.locations)), key=lambda i: it.locations[i].id)]
                 ob = np.asarray(inn.other_score(o))[:, :, sorted(range(len(inn.locations)), key=lambda i: inn.locations[i].id)]
